@@ -1,5 +1,6 @@
 CONSTANTS
   MaxFeatures = 2
+  PairPaths <- PairPathsCore
   Plan <- PlanDesign
   Dev_StopDropsDynamic = FALSE
   Dev_ExcRebuiltFromStr = FALSE
